@@ -119,7 +119,7 @@ def r06a(ctx, rep, cr):
         if not f.name.startswith(VE) or f.name.startswith(INV):
             continue
         muts = []
-        defs = None
+        defs = uses = None
         for c in A.calls(f):
             if not MUT.match(c.resolved) or len(c.args) < 2:
                 continue
@@ -153,6 +153,10 @@ def r06a(ctx, rep, cr):
                 rep.violation('R06a', owner, 'no-invalidate', owner.loc(muts[0][0].line),
                               'embedding keys are mutated (in a closure, %s) and the method can return success without invalidate_hnsw_cache: '
                               'a cached index keeps answering with deleted / overwritten vectors' % lib.short(muts[0][0].resolved))
+            elif not before and created and [r for r in A.return_blocks(owner) if r in A.reachable(owner, created, cut_blocks={c.bb for c in inv})]:
+                rep.violation('R06a', owner, 'no-invalidate-on-failure', owner.loc(muts[0][0].line),
+                              'embedding keys are mutated in a closure (%s) that runs once per element; when a later element fails the method '
+                              'returns without invalidate_hnsw_cache although earlier elements were written' % lib.short(muts[0][0].resolved))
             else:
                 rep.holds('R06a', owner, 'closure mutation', 'invalidate on every success path')
             continue
@@ -189,6 +193,17 @@ def r06a(ctx, rep, cr):
                     if (ip & cparams) or not cparams:
                         ok_arg = True
             if ok_arg:
+                # the write stays even if the method fails later (a batch that stops at its third element has stored two): a failure
+                # return after a SUCCESSFUL mutation needs the invalidation as much as the success return does
+                uses = uses or A.Uses(f)
+                oke = [t for (_, t) in A.call_outcome(f, c, uses).ok]
+                late = [r for r in A.return_blocks(f) if oke and not before and r in A.reachable(f, oke, cut_blocks=invb)]
+                if late:
+                    rep.violation('R06a', f, 'no-invalidate-on-failure', f.loc(c.line),
+                                  'after %s on an embedding key (%s) has succeeded the method can still return — through a later failure — '
+                                  'without invalidate_hnsw_cache: the write is in the store, the cached index still answers from the old '
+                                  'data' % (lib.short(c.resolved), kind))
+                    continue
                 rep.holds('R06a', f, 'mutation#%d' % k, 'invalidate(%s) on every success path' % kind)
             else:
                 rep.violation('R06a', f, 'wrong-collection', f.loc(c.line), 'the cache is invalidated for a different collection than the one whose embeddings change (%s)' % kind)
